@@ -13,6 +13,11 @@ modules and submodules, targets of every kind, and the error variants):
 A fourth family, "auto-loaded": the module set plus a module atop that imports every module; some modules (all, the
 augmenting ones, a random subset) are only put on the search path (harness op D) and are read while imports and
 includes are resolved: the result must equal that of parsing every module explicitly, and the model's.
+Further families: "prefix-sibling" (in one module a failing augment and one whose path STRING extends the failing path
+string: exactly the failing statement must be reported - compared by statement position, not wording), "empty-copies"
+(childless nodes of a grouping used twice, in the target and inside augment bodies: one copy augmented, or both with
+the same child name, which must be clean), "revisions" (two revisions of one module / submodule loaded side by side,
+implementation alone: every augment statement of every loaded revision is visible below its target or reported).
 Every clean implementation result must also have an empty `treeviol`, no entry with augments left (`naugments`) and
 (iv) every node each augment defines below its target exactly once, attributed to the augmenting module's namespace
 (an oracle on the implementation's dump alone); schemas built with an error variant (missing target, leaf target,
@@ -63,7 +68,17 @@ TARGETS = {
     "uses-created": [["cu", "gc"]],
     "submodule-created": [["sc"]],
     "nested-uses-in-case": [["ch", "cg", "gc"]],
+    "empty-in-grouping-copy": [["u1", "eo"], ["u2", "eo"], ["u1", "el"], ["u2", "el"], ["u1", "ech", "ecs"], ["u2", "ech"]],
 }
+# (failing steps, error kind, sibling with a target whose path string extends the failing path string)
+PREFIX_SIBLINGS = [
+    (["name"], "leaf", ["name-servers"]),
+    (["opt"], "missing", ["options"]),
+    (["c", "l"], "leaf", ["c", "lx"]),
+    (["c", "c"], "missing", ["c", "cc"]),
+    (["r2", "in"], "rpc-bad-step", ["r2", "input"]),
+    (["u1", "e"], "missing", ["u1", "eo"]),
+]
 # the RFC 7950 path of a node below a shorthand case member: exists only once FixChoice has inserted the case
 IC_TARGETS = {"implicit-case-path": [["ch", "shc", "shc"]]}
 ERR_TARGETS = {
@@ -87,7 +102,15 @@ def target_module():
         ("notification", "n", [leaf("nl")]),
         cont("cu", [("uses", "g1")]),
         cont("ca2", [("rpc", True, "act", [leaf("ai")], None)]),
+        # names that are textual prefixes of a sibling's name (a path lookup must compare steps, not strings)
+        leaf("name"), cont("name-servers", [leaf("ns1")]), cont("options", [leaf("o1")]),
+        # childless nodes in a grouping that is used twice: every use must be an independent copy
+        ("grouping", 2, "g2", [cont("eo"), ("list", "el", None, None, None, None, []),
+                               ("choice", "ech", None, None, None, [("case", "ecs", [])])]),
+        cont("u1", [("uses", "g2")]),
+        cont("u2", [("uses", "g2")]),
     ]
+    t["body"][1] = cont("c", [leaf("l"), cont("lx", [leaf("lxl")]), cont("cc", [leaf("l2")])])
     ts = mk("ts", "t", belongs="t")
     ts["body"] = [cont("sc", [leaf("sl")])]
     return t, ts
@@ -119,7 +142,8 @@ class AGen:
         for i in range(1, n_aug_mods + 1):
             p = self.r.choice(["t", "x%d" % i, "tt"])
             m = mk("maug%d" % i, "p%d" % i, imports=[(p, "t")])
-            m["body"] = [("grouping", 10 + i, "mg%d" % i, [leaf("ml%d" % i), cont("mgc%d" % i, [leaf("mgl%d" % i)])])]
+            m["body"] = [("grouping", 10 + i, "mg%d" % i, [leaf("ml%d" % i), cont("mgc%d" % i, [leaf("mgl%d" % i)]),
+                                                           cont("mge%d" % i)])]
             mods.append(m)
             owners.append((m, p))
             if i == 1 and self.r.random() < 0.5:
@@ -195,11 +219,22 @@ class AGen:
             elif e == "conflict-existing":
                 tgt, nm = r.choice([(["c"], "l"), (["ch"], "sh"), (["r2", "input"], "i"), (["cu"], "gc")])
                 owner[0]["augments"].append((path_of(owner[1], tgt), [leaf(nm)]))
+            elif e == "prefix-sibling":
+                # in ONE module: an augment that can never be applied and one whose path string extends its path string
+                bad, _, good = r.choice(PREFIX_SIBLINGS)
+                pair = [(path_of(owner[1], bad), [leaf(self.fresh("el"))]),
+                        (path_of(owner[1], good), [leaf(self.fresh("al")), cont(self.fresh("x"), [leaf(self.fresh("al"))])])]
+                if r.random() < 0.5:
+                    pair.reverse()
+                owner[0]["augments"] += pair
+                meta.setdefault("bad_paths", []).append(path_of(owner[1], bad))
             else:
                 steps = r.choice(ERR_TARGETS[e])
                 owner[0]["augments"].append((path_of(owner[1], steps), [leaf(self.fresh("el"))]))
-        for m in mods:
-            r.shuffle(m["augments"])
+                meta.setdefault("bad_paths", []).append(path_of(owner[1], steps))
+        if "prefix-sibling" not in errors:
+            for m in mods:
+                r.shuffle(m["augments"])
         return mods, meta
 
 
@@ -414,6 +449,121 @@ def applied_defects(schema, j):
     return bad
 
 
+def augment_lines(m):
+    """1-based line of every augment statement in the rendered text of m, in written order"""
+    return [i + 1 for i, l in enumerate(sg.render_module(m).split("\n")) if l.startswith("  augment ")]
+
+
+def expected_reports(schema, bad_paths):
+    """(file, line) of the augment statements that cannot be applied"""
+    out = set()
+    for m in schema:
+        for (path, _), line in zip(m["augments"], augment_lines(m)):
+            if path in bad_paths:
+                out.add((m["name"] + ".yang", line))
+    return out
+
+
+def reported_positions(j):
+    out = set()
+    for pos in j["runs"][-1]["errpos"]:
+        parts = pos.split(":")
+        if len(parts) >= 2 and parts[1].lstrip("-").isdigit():
+            out.add((parts[0], int(parts[1])))
+        else:
+            out.add((pos, 0))
+    return out
+
+
+def rev_text(kind, name, prefix, ns, revs, augments, belongs=None, includes=()):
+    """module text with revision statements; returns (text, [(line, path, leaf name, has target)])"""
+    L = []
+    if belongs is None:
+        L += ["module %s {" % name, '  namespace "%s";' % ns, "  prefix %s;" % prefix]
+    else:
+        L += ["submodule %s {" % name, "  belongs-to %s { prefix %s; }" % (belongs, prefix)]
+    L.append("  import t { prefix t; }")
+    for inc, rd in includes:
+        L.append("  include %s%s" % (inc, " { revision-date %s; }" % rd if rd else ";"))
+    for r in revs:
+        L.append("  revision %s;" % r)
+    marks = []
+    for path, lf, good in augments:
+        marks.append((len(L) + 1, path, lf, good))
+        L += ['  augment "%s" {' % path, "    leaf %s { type string; }" % lf, "  }"]
+    L.append("}")
+    return "\n".join(L) + "\n", marks
+
+
+def revision_cases(rnd, n):
+    """two revisions of one module / submodule loaded side by side: (label, [(file, text)], [(file, line, steps, leaf, ns, good)])"""
+    t, ts = target_module()
+    base = [("t.yang", sg.render_module(t)), ("ts.yang", sg.render_module(ts))]
+    out = []
+    good_targets = [["c"], ["li"], ["n"], ["r", "input"], ["cu", "gc"], ["u1", "eo"], ["options"]]
+    bad_targets = [["nowhere"], ["c", "l"], ["c", "nope"], ["name"]]
+    for k in range(n):
+        sub = k % 3 == 2
+        olds, news = [], []
+        for side, lst in (("old", olds), ("new", news)):
+            for i in range(rnd.randint(1, 2)):
+                lst.append(("/" + "/".join("t:" + x for x in rnd.choice(good_targets)), "%s%d%s" % (side, k, "abc"[i]), True))
+            if rnd.random() < 0.45:
+                lst.append(("/" + "/".join("t:" + x for x in rnd.choice(bad_targets)), "lost%s%d" % (side, k), False))
+            rnd.shuffle(lst)
+        files, marks = list(base), []
+        if not sub:
+            for fname, revs, augs in (("ext@2020-01-01.yang", ["2020-01-01"], olds), ("ext@2021-06-01.yang", ["2021-06-01", "2020-01-01"], news)):
+                text, ms_ = rev_text("module", "ext", "e", "urn:ext", revs, augs)
+                files.append((fname, text))
+                marks += [(fname, ln, path, lf, "urn:ext", good) for ln, path, lf, good in ms_]
+        else:
+            htext, _ = rev_text("module", "host", "h", "urn:host", [], [], includes=[("hsub", rnd.choice([None, "2021-06-01", "2020-01-01"]))])
+            files.append(("host.yang", htext))
+            for fname, revs, augs in (("hsub@2020-01-01.yang", ["2020-01-01"], olds), ("hsub@2021-06-01.yang", ["2021-06-01"], news)):
+                text, ms_ = rev_text("submodule", "hsub", "h", "", revs, augs, belongs="host")
+                files.append((fname, text))
+                marks += [(fname, ln, path, lf, "urn:host", good) for ln, path, lf, good in ms_]
+        out.append(("submodule-revisions" if sub else "module-revisions", files, marks))
+    return out
+
+
+def revision_line(files, order):
+    toks = ["process", "-", ",".join(["L%d" % i for i in range(len(order))] + ["P"]), str(len(order))]
+    for i in order:
+        toks += [sg.hx(files[i][0]), sg.hx(files[i][1])]
+    return " ".join(toks)
+
+
+def revision_defects(marks, line):
+    """every augment statement of every loaded revision is applied (visible below its target, in the module's namespace)
+    or reported (an error positioned at the statement); nothing else is reported"""
+    if not line.startswith("{"):
+        return ["implementation neither resolved nor reported: " + line[:120]]
+    j = json.loads(line)
+    if any(l.startswith("err") for l in j["loads"]):
+        return ["a text was rejected at load: %s" % j["loads"]]
+    run = j["runs"][-1]
+    bad = []
+    want = {(f, ln) for f, ln, path, lf, ns, good in marks if not good}
+    got = reported_positions(j)
+    if want != got:
+        bad.append("reported %s, the augments without target are at %s" % (sorted(got), sorted(want)))
+    if not run["errors"]:
+        tree = next(m["tree"] for m in run["modules"] if m["name"] == "t" and not m["sub"])
+        for f, ln, path, lf, ns, good in marks:
+            node = tree
+            for part in path.strip("/").split("/"):
+                node = child_of(node, part.split(":")[-1]) if node is not None else None
+            cs = [c for c in ((node or {}).get("children") or []) if c["name"] == lf]
+            if len(cs) != 1:
+                bad.append("augment at %s:%d: %d node(s) %s below %s" % (f, ln, len(cs), lf, path))
+            elif cs[0]["ns"] != ns:
+                bad.append("augment at %s:%d: %s has namespace %s, not %s" % (f, ln, lf, cs[0]["ns"], ns))
+        bad += go_clean_defects(j)
+    return bad
+
+
 def with_top(schema):
     """the module set plus a module `atop` that imports every module: loading atop alone reaches all of them"""
     top = mk("atop", "atop", imports=[("i%d" % i, m["name"]) for i, m in enumerate(schema) if m["belongs"] is None])
@@ -506,10 +656,38 @@ def gen(tier, seed):
         g = AGen(rnd)
         out.append(g.schema() + ("mix",))
     # error variants, alone and mixed with good chains
-    for e in ["missing", "leaf", "rpc-bad-step", "conflict", "conflict-existing"]:
+    for e in ["missing", "leaf", "rpc-bad-step", "conflict", "conflict-existing"]:  # (prefix-sibling has its own class)
         for _ in range(40 if tier == "quick" else 400):
             g = AGen(rnd)
             out.append(g.schema(errors=[e], n_chains=rnd.choice([1, 1, 2])) + ("error",))
+    # a failing augment and, in the same module, one whose path string extends the failing path string (both written orders)
+    for _ in range(40 if tier == "quick" else 400):
+        g = AGen(rnd)
+        out.append(g.schema(errors=["prefix-sibling"], n_chains=rnd.choice([1, 1, 2]), n_aug_mods=rnd.randint(0, 2)) + ("prefix-sibling",))
+    # childless nodes of a grouping used twice: one copy augmented, or both with the same child name (must be clean)
+    for k in range(24 if tier == "quick" else 240):
+        g = AGen(rnd)
+        mods, owners = g.modules(rnd.randint(1, 2))
+        meta = dict(kinds=["empty-in-grouping-copy"], chains=[1], errors=[], ic=False)
+        what = rnd.choice(["eo", "el", "ech"])
+        nm = g.fresh("same")
+        body = lambda: ([("case", g.fresh("acs"), [leaf(nm)])] if what == "ech" and rnd.random() < 0.5 else [leaf(nm)])
+        o1, o2 = rnd.choice(owners), rnd.choice(owners)
+        o1[0]["augments"].append((path_of(o1[1], ["u1", what]), body()))
+        if k % 2 == 0:
+            o2[0]["augments"].append((path_of(o2[1], ["u2", what]), [leaf(nm)] if what != "ech" else body()))
+        # the same with childless nodes that an augment brings along twice (uses inside two augments)
+        mo = next(o for o in owners if o[0]["name"].startswith("maug") and o[0]["belongs"] is None)
+        i = mo[0]["name"][4]
+        mo[0]["augments"].append((path_of(mo[1], ["c"]), [("uses", "mg" + i)]))
+        mo[0]["augments"].append((path_of(mo[1], ["n"]), [("uses", "mg" + i)]))
+        o3 = rnd.choice(owners)
+        o3[0]["augments"].append((path_of(o3[1], ["c", "mge" + i]), [leaf(nm)]))
+        if k % 3 == 0:
+            o3[0]["augments"].append((path_of(o3[1], ["n", "mge" + i]), [leaf(nm)]))
+        for m in mods:
+            rnd.shuffle(m["augments"])
+        out.append((mods, meta, "empty-copies"))
     # paths through the implicit case (applied only by the pass after FixChoice)
     for _ in range(120 if tier == "quick" else 1200):
         g = AGen(rnd)
@@ -703,6 +881,20 @@ def run(res, tier, seed, proof):
             report(None, "valid-rejected:" + origin, "every augment has an existing target, yet Process reports: %s"
                    % (g0[4]["runs"][-1]["errors"][:2],),
                    dict(base, what_kind="valid-rejected", variant=g0[0], schema=schemas[g0[0]], order=g0[1]))
+        # exactly the augments that cannot be applied are reported (positions of the statements, not wording)
+        if meta["errors"] and meta.get("bad_paths") and not set(meta["errors"]) & {"conflict", "conflict-existing"}:
+            for vname, o, st, txt, j, line in gos:
+                if st != "err":
+                    continue
+                want = expected_reports(schemas[vname], set(meta["bad_paths"]))
+                got = reported_positions(j)
+                if want != got:
+                    hist["wrong_reports"] = hist.get("wrong_reports", 0) + 1
+                    report(None, "wrong-reports", "the augments reported are not the ones that cannot be applied: reported %s, "
+                           "without target %s (modules %s)" % (sorted(got), sorted(want), vname),
+                           dict(base, what_kind="wrong-reports", variant=vname, schema=schemas[vname], order=o,
+                                bad_paths=meta["bad_paths"], errors=j["runs"][-1]["errors"]))
+                    break
         # error variants must be reported
         if meta["errors"] and any(st == "ok" for vname, o, st, txt, j, line in gos):
             hist["error_variant_not_reported"] += 1
@@ -746,10 +938,37 @@ def run(res, tier, seed, proof):
             hist["autoload_tie_mismatch"] += 1
             report(None, "tie", "tie (module set with the importing module atop): impl=%s model=%s" % (rst, m.split(" ")[0]),
                    dict(base, what_kind="tie", variant="atop", impl=(rtxt or rst), model=m[:2000]))
+    # two revisions of one module / submodule side by side (implementation alone: the model has one module per name)
+    rcases = revision_cases(rnd, 30 if tier == "quick" else 300)
+    rlines, ridx = [], []
+    for ci, (label, files, marks) in enumerate(rcases):
+        n = len(files)
+        orders = [list(range(n)), list(reversed(range(n)))]
+        p_ = list(range(n))
+        rnd.shuffle(p_)
+        orders.append(p_)
+        for o in orders:
+            rlines.append(revision_line(files, o))
+            ridx.append((ci, o))
+    rout = lib.run_go(rlines)
+    hist["revision_runs"] = len(rlines)
+    hist["revision_defects"] = 0
+    hist["revision_by_kind"] = {}
+    seen_rev = set()
+    for (ci, o), line in zip(ridx, rout):
+        label, files, marks = rcases[ci]
+        hist["revision_by_kind"][label] = hist["revision_by_kind"].get(label, 0) + 1
+        bad = revision_defects(marks, line)
+        if bad and ci not in seen_rev:
+            seen_rev.add(ci)
+            hist["revision_defects"] += 1
+            report(None, "revisions", "%s: an augment of a loaded revision is neither applied nor reported (or a wrong one is): %s"
+                   % (label, "; ".join(bad[:2])),
+                   dict(kind="c07", what_kind="revisions", files=files, marks=marks, order=o, schema=[], meta={}, origin=label))
     nontrivial = sum(1 for s_, m_, o_ in items if sum(len(x["augments"]) for x in s_) >= 2)
     s0 = items[0][0]
     cov = dict(
-        evaluations=len(go_lines) + len(auto_lines) + len(ml_lines), distinct_nontrivial=nontrivial, schemas=len(items),
+        evaluations=len(go_lines) + len(auto_lines) + len(rlines) + len(ml_lines), distinct_nontrivial=nontrivial, schemas=len(items),
         rule="every schema in three variants (as written; augment statements permuted inside each module; augmenting modules "
              "renamed, which permutes Process's sorted visiting order), each loaded in %d orders on the implementation and run on "
              "the model at the implementation's visiting order, plus %d further order arguments on the model; compared: canonical "
@@ -770,6 +989,26 @@ def run(res, tier, seed, proof):
 
 def replay(rep, res):
     print("what:", rep.get("what"))
+    if rep.get("what_kind") == "revisions":
+        files = [tuple(f) for f in rep["files"]]
+        marks = [tuple(m) for m in rep["marks"]]
+        for f, t in files[2:]:
+            print("----", f)
+            print(t)
+        line = lib.run_go([revision_line(files, rep["order"])])[0]
+        bad = revision_defects(marks, line)
+        print("load order", [files[i][0] for i in rep["order"]], "->", bad or "every augment applied or reported")
+        return 1 if bad else 0
+    if rep.get("what_kind") == "wrong-reports":
+        for m in rep["schema"]:
+            if m["augments"]:
+                print(sg.render_module(m))
+        st, txt, j = sg.canon_go(lib.run_go([sg.go_case(rep["schema"], order=rep.get("order"))])[0])
+        want = expected_reports(rep["schema"], set(rep["bad_paths"]))
+        got = reported_positions(j) if j else set()
+        print("reported:", sorted(got), (j or {}).get("runs", [{}])[-1].get("errors"))
+        print("without target:", sorted(want))
+        return 0 if st == "err" and want == got else 1
     outs = set()
     for label, schema in (("a", rep["schema"]), ("b", rep.get("schema_b"))):
         if not schema:
